@@ -60,7 +60,7 @@ def build(corpus):
     from whoosh.analysis import SpaceSeparatedTokenizer
     from whoosh.filedb.filestore import RamStorage
     schema = fields.Schema(k=fields.ID(stored=True, sortable=True), t=fields.TEXT(analyzer=SpaceSeparatedTokenizer(), phrase=True),
-                           n=fields.NUMERIC(int, 8, signed=True, shift_step=2), d=fields.DATETIME)
+                           n=fields.NUMERIC(int, 8, signed=True, shift_step=2), d=fields.DATETIME, c=fields.ID(sortable=True))
     ix = RamStorage().create_index(schema)
     docs = corpus["docs"]
     start = 0
@@ -72,7 +72,7 @@ def build(corpus):
         w = ix.writer(codec=W3Codec(blocklimit=corpus.get("blocklimit", 128)))
         for i in range(start, end):
             import datetime
-            w.add_document(k=str(i), t=" ".join(docs[i]["t"]), n=docs[i]["n"],
+            w.add_document(k=str(i), t=" ".join(docs[i]["t"]), n=docs[i]["n"], c=(docs[i]["t"] or ["none"])[0],
                            d=datetime.datetime(2020, 1, 15, 12, 0, 0) + datetime.timedelta(days=docs[i]["n"]))
         w.commit(merge=False)
         start = end
@@ -165,6 +165,10 @@ def gen_queries(rnd, corpus):
         qs.append(("spancondition %r %r" % (a_, b_), sp.SpanCondition(T(a_), T(b_)), lambda d, a_=a_, b_=b_: a_ in d["t"] and b_ in d["t"]))
         qs.append(("andspan %r %r" % (w_, a_), query.And([sp.SpanFirst(T(w_), limit=k), T(a_)]),
                    lambda d, w_=w_, k=k, a_=a_: w_ in d["t"][:k + 1] and a_ in d["t"]))
+    # a query over a column (the first token of the document, kept in a sortable field): by value and by predicate
+    cw = rnd.choice(vocab)
+    qs.append(("column == %r" % cw, query.ColumnQuery("c", cw), lambda d, cw=cw: (d["t"] or ["none"])[0] == cw))
+    qs.append(("column >= %r" % cw, query.ColumnQuery("c", lambda v, cw=cw: v >= cw), lambda d, cw=cw: (d["t"] or ["none"])[0] >= cw))
     qs.append(("every t", query.Every("t"), lambda d: True))
     qs.append(("every", query.Every(), lambda d: True))
     return qs
